@@ -183,6 +183,12 @@ def run(ctx):
     for rep in range(25 if quick else 500):
         seq = "\n".join(rnd.choice(cmds) for _ in range(rnd.randrange(1, 12))) + "\n\x04"     # ^D ends the session
         job("btcdeb", [rnd.choice(scripts[:12])] + rnd.choice(([], ["0x01"], ["-z"])), "tty", "tty", seq)
+    # complete command trees over {step, rewind, exec} on scripts with failing operations: the bookkeeping of failed steps
+    import itertools
+    for sc in ("[OP_1 OP_ADD]", "[OP_ADD OP_1]", "[OP_1 OP_0 OP_VERIFY OP_2]", "[OP_0 OP_IF OP_ELSE OP_RETURN OP_ENDIF OP_1]"):
+        for d in range(1, 5 if quick else 7):
+            for seq in itertools.product(("step", "rewind", "exec 1 2"), repeat=d):
+                job("btcdeb", [sc], "tty", "tty", "\n".join(seq) + "\nprint\nstep\n\x04")
     def one(j):
         tool, argv, si, so, inp = j
         try:
